@@ -37,7 +37,7 @@ def check(res):
                           {"threads": t, "rounds": r, "stdout": p.stdout[-1500:], "rerun": "build/<hash>/tsan/threads_driver %d %d %d" % (t, r, res.seed)})
             break
     if not all(status.values()) and not keys:
-        bad = [s for s in f["statics"] if not (s["constexpr"] or s["const"]) or s["thread_local"]]
+        bad = [s for s in f["statics"] if not (s["constexpr"] or s["const"]) or s["thread_local"] or s.get("mutable_members")]
         if bad:
             res.violation("table:mutable-static", "the source defines a mutable object of static storage duration: %s %s (%s)" %
                           (bad[0]["type"], bad[0]["name"], bad[0]["tu"]),
@@ -48,11 +48,12 @@ def check(res):
         "evaluations": total, "distinct_nontrivial": len(configs) * 3,
         "rule": "T threads (2..16, thorough ..32), each with its own Lexicon, build (300 seeded requests incl. shared reserved-word constants, "
                 "declarations, 1-6 KB strings) and print a unit under ThreadSanitizer with random yields; several threads run the same program; "
-                "each thread's trace (identity pattern + printed text) is compared with the same program run alone",
+                "each thread's trace (identity pattern + printed text) is compared with the same program run alone; then all threads at once ask their own "
+                "Lexicon for specifiers(b) / qualifiers(q) of every basic name 150000 x rounds times, each in its own order, every answer compared with the named accessor",
         "samples": samples,
         "traces_validated_against_impl": total,
         "static_objects_in_source": len(f["statics"]),
         "proved_part": "no mutable static-storage object in the source (table); interleaving-independence of the model",
     })
     res.assumptions += ["PARTIAL: absence of data races under every scheduler interleaving is argued from 'no shared mutable state' and observed with TSan on the runs above, not proved of the compiled code",
-                        "`mutable` sub-objects of constexpr objects are not detected by the statics table (none exist; TSan would observe writes)"]
+                        "`mutable` data members are found by class NAME among the classes of namespace ipr (members and bases included); a class outside ipr with mutable members is not seen by the table"]
